@@ -380,3 +380,9 @@ class Leaf(Case):
 
 for c in (Crypt, Reject, Leaf):
     register(c())
+
+
+# ---- lemmas for the stubs this check relies on (see props.common.Borrowed) ----
+from props.common import Borrowed, REGISTRY
+from props import c01 as _c01
+register(Borrowed(REGISTRY['C01.reverse_byte'], 'C02', 'reverse_byte'))
